@@ -54,6 +54,7 @@ static void gen_items(std::vector<V> &out, int maxn, bool allow_arrays, const ch
       if (a.at == 'T' && !a.el.empty()) a.at = a.el[0].t;   // as the scanner does: type of the first element
       a.seg = avg::gen_seg(a.el, 50);
       out.push_back(a);
+      if (vf::chance(35)) { int r = vf::pick<int>(1, 3); for (int i = 0; i < r && (int)out.size() < n; i++) out.push_back(a); }   // a run of equal arrays
     } else if (k <= 3 && avg::runnable_const(t)) {  // constant run
       V v = gen_scalar(t);
       int r = vf::pick<int>(2, 4);
